@@ -664,8 +664,11 @@ func advanceDFA(state int, r rune) int {
 
 	case 53:
 		switch r {
+		case '*':
+			return 53
+
 		case '\t', '\n', '\r',
-			' ', '!', '"', '#', '$', '%', '&', '\'', '(', ')', '*', '+', ',', '-', '.', /*/*/
+			' ', '!', '"', '#', '$', '%', '&', '\'', '(', ')' /***/, '+', ',', '-', '.', /*/*/
 			'0', '1', '2', '3', '4', '5', '6', '7', '8', '9',
 			':', ';', '<', '=', '>', '?', '@',
 			'A', 'B', 'C', 'D', 'E', 'F', 'G', 'H', 'I', 'J', 'K', 'L', 'M', 'N', 'O', 'P', 'Q', 'R', 'S', 'T', 'U', 'V', 'W', 'X', 'Y', 'Z',
